@@ -71,6 +71,18 @@ pub fn links(thorough: bool) -> Vec<(String, LinkMetadata)> {
             out.push((format!("artifacts:{n}x{dn}:products"), mk("l", Default::default(), m, None, ByProducts::new(), vec![])));
         }
     }
+    // two artifacts with *different* descriptions in one table, in both path orders (what one entry
+    // carries must not show in its neighbour)
+    for (d1n, d1) in desc_variants() {
+        for (d2n, d2) in desc_variants() {
+            if d1n == d2n {
+                continue;
+            }
+            let two: world::Artifacts = [(world::vpath("a"), d1.clone()), (world::vpath("b"), d2.clone())].into_iter().collect();
+            out.push((format!("artifacts:a={d1n},b={d2n}:materials"), mk("l", two.clone(), Default::default(), None, ByProducts::new(), vec![])));
+            out.push((format!("artifacts:a={d1n},b={d2n}:products"), mk("l", Default::default(), two, None, ByProducts::new(), vec![])));
+        }
+    }
     // artifact paths that are not in normal form, alone and next to the path they normalise to
     for path in ["./a", "a/../b", "a//b", "a/", "/abs/p", "..", ".", "a/./b", "./", "a\\b", " a", "a "] {
         let one: world::Artifacts = [(world::vpath(path), world::desc(1))].into_iter().collect();
@@ -359,12 +371,40 @@ fn digest_order_sampled(acc: &mut Acc) -> usize {
 
 /// Listed fields of a link / layout document, for comparison between the input
 /// text and the re-serialised parse result.
+/// A PEM text is the armoured block; what stands before or after it is not part of the key.
+fn armoured(public: &Value) -> Value {
+    let Some(t) = public.as_str() else { return public.clone() };
+    match (t.find("-----BEGIN"), t.rfind("-----END")) {
+        (Some(a), Some(b)) if a < b => {
+            let end = t[b + 8..].find("-----").map(|i| b + 8 + i + 5).unwrap_or(t.len());
+            json!(t[a..end].split_whitespace().collect::<Vec<_>>().join("\n"))
+        }
+        _ => public.clone(),
+    }
+}
+
+/// The armoured block of a PEM text in the line layout the key id is computed over.
+fn canonical_pem(t: &str) -> String {
+    match (t.find("-----BEGIN"), t.rfind("-----END")) {
+        (Some(a), Some(b)) if a < b => {
+            let end = t[b + 8..].find("-----").map(|i| b + 8 + i + 5).unwrap_or(t.len());
+            t[a..end].to_string()
+        }
+        _ => t.to_string(),
+    }
+}
+
 fn listed_fields(signed: &Value) -> Value {
     let typ = signed["_type"].as_str().unwrap_or("");
     if typ == "link" || signed.get("materials").is_some() {
+        // an optional member that is null is an absent one
+        let mut by = signed["byproducts"].clone();
+        if let Some(o) = by.as_object_mut() {
+            o.retain(|_, v| !v.is_null());
+        }
         json!({
             "name": signed["name"], "command": signed["command"], "materials": signed["materials"], "products": signed["products"],
-            "environment": signed.get("environment").cloned().unwrap_or(Value::Null), "byproducts": signed["byproducts"],
+            "environment": signed.get("environment").cloned().unwrap_or(Value::Null), "byproducts": by,
         })
     } else {
         let items = |arr: &Value, cmd: &str| -> Vec<Value> {
@@ -373,7 +413,16 @@ fn listed_fields(signed: &Value) -> Value {
                 "command": s[cmd], "expected_materials": s["expected_materials"], "expected_products": s["expected_products"],
             })).collect()
         };
-        let keys: BTreeMap<String, Value> = signed["keys"].as_object().cloned().unwrap_or_default().into_iter().map(|(k, v)| (k, json!({"keytype": v["keytype"], "scheme": v["scheme"], "public": v["keyval"]["public"], "keyid_hash_algorithms": v.get("keyid_hash_algorithms").cloned().unwrap_or(Value::Null)}))).collect();
+        // an entry filed under an identifier that is not its key's own is dropped on reading (C12):
+        // only properly filed entries (by the reference preimage hash) are expected to reappear
+        let properly_filed = |label: &str, v: &Value| -> bool {
+            let algs: Option<Vec<&str>> = v.get("keyid_hash_algorithms").and_then(|a| a.as_array()).map(|a| a.iter().filter_map(|x| x.as_str()).collect());
+            match (v["keytype"].as_str(), v["scheme"].as_str(), v["keyval"]["public"].as_str()) {
+                (Some(kt), Some(sc), Some(pb)) => crate::olpc::keyid(kt, sc, algs.as_deref(), pb) == label || armoured(&json!(pb)) == armoured(&json!(pb.trim())) && pb.contains("-----BEGIN") && crate::olpc::keyid(kt, sc, algs.as_deref(), &canonical_pem(pb)) == label,
+                _ => true,
+            }
+        };
+        let keys: BTreeMap<String, Value> = signed["keys"].as_object().cloned().unwrap_or_default().into_iter().filter(|(k, v)| properly_filed(k, v)).map(|(k, v)| (k, json!({"keytype": v["keytype"], "scheme": v["scheme"], "public": armoured(&v["keyval"]["public"]), "keyid_hash_algorithms": v.get("keyid_hash_algorithms").cloned().unwrap_or(Value::Null)}))).collect();
         json!({"readme": signed["readme"], "steps": items(&signed["steps"], "expected_command"), "inspect": items(&signed["inspect"], "run"), "keys": keys})
     }
 }
@@ -410,6 +459,28 @@ pub fn documents(thorough: bool) -> Vec<(String, String)> {
     docs.push(("layout/text:match-trailing-token".into(), r#"{"_type":"layout","expires":"2031-06-01T00:00:00Z","readme":"","keys":{},"inspect":[],"steps":[{"_type":"step","name":"s","threshold":1,"expected_materials":[["MATCH","a","WITH","PRODUCTS","FROM","s","extra"]],"expected_products":[],"pubkeys":[],"expected_command":[]}]}"#.into()));
     docs.push(("layout/text:pubkey-not-hex".into(), format!(r#"{{"_type":"layout","expires":"2031-06-01T00:00:00Z","readme":"","keys":{{}},"inspect":[],"steps":[{{"_type":"step","name":"s","threshold":1,"expected_materials":[],"expected_products":[],"pubkeys":["{}"],"expected_command":[]}}]}}"#, "Z".repeat(64))));
     docs.push(("layout/text:command-string-instead-of-array".into(), r#"{"_type":"layout","expires":"2031-06-01T00:00:00Z","readme":"","keys":{},"inspect":[],"steps":[{"_type":"step","name":"s","threshold":1,"expected_materials":[],"expected_products":[],"pubkeys":[],"expected_command":"a b"}]}"#.into()));
+    // every leaf of three links and two layouts x every small edit of `tamper.rs` (strings re-spelled,
+    // integers wrapped, null <-> empty, member removed): whatever the parser still accepts must come
+    // out again exactly as written
+    {
+        let a = crate::keys::get("ed1");
+        let mut bases: Vec<(String, Value)> = crate::world::sample_links("step").into_iter().map(|(n, l)| (format!("link/{}", n.split(':').next().unwrap_or(n)), serde_json::to_value(&l).unwrap())).collect();
+        let lay = crate::world::layout(
+            vec![crate::world::step("Build-it", 2, &[a]).expected_command(vec!["make".to_string(), "Out/p".to_string()].into()).add_expected_product(ArtifactRule::Create("out/p".into())).add_expected_material(ArtifactRule::Match { pattern: "src/*".into(), in_src: Some("in/".into()), with: in_toto::models::rule::Artifact::Products, in_dst: Some("Out".into()), from: "fetch".into() })],
+            vec![in_toto::models::inspection::Inspection::new("check").run(vec!["sh".to_string(), "-c".to_string(), "true".to_string()].into()).add_expected_product(ArtifactRule::Disallow("keys\\secret".into()))],
+            &[a, crate::keys::get("rsa256a")],
+            crate::world::far_future(),
+        );
+        bases.push(("layout/with-everything".into(), serde_json::to_value(&lay).unwrap()));
+        for (bn, base) in &bases {
+            for e in crate::tamper::edits(base) {
+                let mut d = base.clone();
+                if crate::tamper::apply(&mut d, &e) {
+                    docs.push((format!("{bn}/leaf:{e}"), d.to_string()));
+                }
+            }
+        }
+    }
     // every token position of every rule form replaced by: its lower-case spelling, another keyword
     // of the grammar, a foreign word, the empty string; one token dropped; one token doubled.
     // Whatever the parser accepts must come out again exactly as written.
